@@ -16,6 +16,7 @@ WITNESS_PROPS = {
     "w19_user_repr_on_flat": ("C17", "C04"), "w20_user_repr_on_unsized_flat": ("C04", "C01", "C02"),
     "w21_cfg_field_on_flat": ("C04", "C01", "C02"), "w22_cfg_variant_on_flat": ("C04", "C02"),
     "w23_user_repr_on_flat_enum": ("C17", "C04"), "w24_user_repr_on_clike_enum": ("C17", "C04"),
+    "w25_flatwrap_inline_storage": ("C02", "C03", "C15"),
 }
 TWIN = {"w11_vec_native_elem": "t11_portable_containers", "w12_vec_native_len": "t11_portable_containers", "w13_string_native_len": "t11_portable_containers",
         "w14_flex_native_len": "t11_portable_containers", "w15_flex_native_item": "t11_portable_containers"}
